@@ -132,6 +132,7 @@ func init() {
 		Run: func(c *core.Ctx, r *core.Report) {
 			E11ConstIndexInLoop(c, r)
 			E6DashPeriod(c, r)
+			E6JoinerSupport(c, r)
 			E6StyleCoverage(c, r, nil)
 			E6DashScaling(c, r)
 			E6WidthFrame(c, r)
@@ -171,6 +172,7 @@ func init() {
 		Run: func(c *core.Ctx, r *core.Report) {
 			E1Renderers(c, r)
 			E12Units(c, r)
+			E12ColorSpaceOnce(c, r)
 			E6ImplicitClose(c, r)
 			E6StyleCoverage(c, r, map[string]bool{"Rasterizer": true})
 			E6ScannerSites(c, r)
@@ -241,6 +243,7 @@ func init() {
 			E11Subsetter(c, r)
 			E5SubsetOnce(c, r)
 			E5WidthRuns(c, r)
+			E11DerivedScale(c, r)
 			E5FontMaps(c, r)
 			E5Resources(c, r)
 		},
@@ -251,6 +254,7 @@ func init() {
 		Run: func(c *core.Ctx, r *core.Report) {
 			E11SVGTransformTable(c, r)
 			E11CopyStore(c, r)
+			E11ViewBoxMirror(c, r)
 			E11SVGUnits(c, r)
 			E11ReuseAfterEscape(c, r, "/svg.go")
 			E11ReturnedScratch(c, r, "/svg.go")
